@@ -288,6 +288,47 @@ func C02(r *h.Run) {
 			}
 		}
 	}
+	// the coded error travels inside a multi-error (errors.Join, several %w): errors.As finds
+	// it, so its code, message, details and metadata are what the client must get
+	for pi, proto := range protos {
+		for ki, kind := range kinds {
+			for shape := 0; shape < 3; shape++ {
+				var copts []connect.ClientOption
+				switch proto {
+				case "grpc":
+					copts = append(copts, connect.WithGRPC())
+				case "grpcweb":
+					copts = append(copts, connect.WithGRPCWeb())
+				}
+				code := connect.Code(1 + (pi*5+ki*3+shape)%16)
+				inner := mkError(code, "the real failure", 1, http.Header{"X-Err": {"kept"}})
+				cleanup := errors.New("cleanup also failed")
+				var retErr error
+				switch shape {
+				case 0:
+					retErr = errors.Join(inner, cleanup)
+				case 1:
+					retErr = fmt.Errorf("%w; and then %w", inner, cleanup)
+				default:
+					retErr = errors.Join(cleanup, fmt.Errorf("wrapped: %w", inner))
+				}
+				send := [][]byte{{1}, {2}}
+				if kind == "unary" || kind == "client" {
+					send = [][]byte{{1}}
+				}
+				ex := &e2eExtras{}
+				res := runE2E(bytesValueKind, kind, viaLocal, copts, nil, [][]byte{{1}}, send, retErr, 0, ex)
+				in := map[string]any{"proto": proto, "kind": kind, "code": code.String(), "shape": []string{"errors.Join(coded, other)", "fmt.Errorf with two %w", "errors.Join(other, wrapped coded)"}[shape]}
+				r.Eval("e2e_multi_error", fmt.Sprint(pi, kind, shape))
+				if res.Panic != nil {
+					r.Fail(h.Failure{Key: "error/panic-or-hang", Family: "e2e_multi_error", What: fmt.Sprint(res.Panic), Input: in})
+					continue
+				}
+				r.Sample("e2e_multi_error", map[string]any{"in": in, "client_error": fmt.Sprint(ex.ClientErr)})
+				checkError(r, "e2e_multi_error", in, ex.ClientErr, code, "the real failure", mkDetails(1), http.Header{"X-Err": {"kept"}})
+			}
+		}
+	}
 	// interceptor-returned and plain errors
 	for pi, proto := range protos {
 		for _, kind := range kinds {
